@@ -96,7 +96,10 @@ def run_tlc(module, cfg_text, out_path, workers=1, timeout=900, xmx="4g", extra=
     if mod_path is None:
         raise ToolError("no module " + module)
     libs = os.pathsep.join([SPEC, os.path.join(SPEC, "mc"), os.path.join(SPEC, "trace")])
-    jopts = ["-XX:+UseParallelGC", "-Xmx" + xmx, "-DTLA-Library=" + libs]
+    # (TLC leaves an empty tlc-* directory per run in java.io.tmpdir: keep those inside the run directory, not in /tmp)
+    jtmp = os.path.join(run_dir, "jtmp")
+    os.makedirs(jtmp, exist_ok=True)
+    jopts = ["-XX:+UseParallelGC", "-Xmx" + xmx, "-DTLA-Library=" + libs, "-Djava.io.tmpdir=" + jtmp]
     if xss:
         jopts.append("-Xss" + xss)
     if deque:
